@@ -623,7 +623,7 @@ VH_NOINSTR static void setup_objects(const char* setup) {
       int rr = pipe(pv);
       vr_note("ret pipe %d %d", rr, rr < 0 ? errno : 0);
       if (rr) { perror("pipe"); exit(2); }
-      if (arg > 0) fcntl(pv[1], F_SETPIPE_SZ, (int)arg);
+      if (arg > 0) syscall(SYS_fcntl, pv[1], F_SETPIPE_SZ, (int)arg); /* not through the shim */
       peer_of[pv[0]] = pv[1]; /* the read end reads what was written into the write end */
       vr_note("obj P %d %d %d %d", nep, pv[0], nep + 1, pv[1]);
       ep[nep++] = pv[0];
